@@ -351,6 +351,13 @@ impl ExpressionPredicate {
                     let left_val = self.eval_expr(left, chunk, row)?;
                     return self.eval_in_operator(&left_val, right, chunk, row);
                 }
+                // AND / OR are three-valued: an operand without a boolean value is
+                // "unknown", and the other operand can still decide the result
+                if matches!(op, BinaryFilterOp::And | BinaryFilterOp::Or) {
+                    let l = self.eval_expr(left, chunk, row).and_then(|v| v.as_bool());
+                    let r = self.eval_expr(right, chunk, row).and_then(|v| v.as_bool());
+                    return Self::eval_and_or(*op, l, r);
+                }
                 let left_val = self.eval_expr(left, chunk, row)?;
                 let right_val = self.eval_expr(right, chunk, row)?;
                 self.eval_binary_op(&left_val, *op, &right_val)
@@ -596,6 +603,15 @@ impl ExpressionPredicate {
             FilterExpression::Variable(name) if name == variable => Some(item.clone()),
             FilterExpression::Literal(v) => Some(v.clone()),
             FilterExpression::Binary { left, op, right } => {
+                if matches!(op, BinaryFilterOp::And | BinaryFilterOp::Or) {
+                    let l = self
+                        .eval_comprehension_expr(left, item, variable)
+                        .and_then(|v| v.as_bool());
+                    let r = self
+                        .eval_comprehension_expr(right, item, variable)
+                        .and_then(|v| v.as_bool());
+                    return Self::eval_and_or(*op, l, r);
+                }
                 let left_val = self.eval_comprehension_expr(left, item, variable)?;
                 let right_val = self.eval_comprehension_expr(right, item, variable)?;
                 self.eval_binary_op(&left_val, *op, &right_val)
@@ -619,6 +635,25 @@ impl ExpressionPredicate {
             // For other expression types, return None (unsupported in comprehension)
             _ => None,
         }
+    }
+
+    /// Three-valued (Kleene) AND / OR: `None` is "unknown". `false AND unknown` is
+    /// false and `true OR unknown` is true; otherwise an unknown operand makes the
+    /// result unknown.
+    fn eval_and_or(op: BinaryFilterOp, left: Option<bool>, right: Option<bool>) -> Option<Value> {
+        let decided = match op {
+            BinaryFilterOp::And => match (left, right) {
+                (Some(false), _) | (_, Some(false)) => Some(false),
+                (Some(true), Some(true)) => Some(true),
+                _ => None,
+            },
+            _ => match (left, right) {
+                (Some(true), _) | (_, Some(true)) => Some(true),
+                (Some(false), Some(false)) => Some(false),
+                _ => None,
+            },
+        };
+        decided.map(Value::Bool)
     }
 
     fn eval_binary_op(&self, left: &Value, op: BinaryFilterOp, right: &Value) -> Option<Value> {
@@ -1949,6 +1984,54 @@ mod tests {
             store,
         );
         assert!(pred_xor.evaluate(&chunk, 0));
+    }
+
+    #[test]
+    fn test_and_or_are_three_valued() {
+        let store = Arc::new(crate::graph::lpg::LpgStore::new());
+        let builder = DataChunkBuilder::new(&[LogicalType::Int64]);
+        let chunk = builder.finish();
+        let lit = |v: Value| Box::new(FilterExpression::Literal(v));
+        // `unbound < 3` has no value: unknown
+        let unknown = || {
+            Box::new(FilterExpression::Binary {
+                left: Box::new(FilterExpression::Variable("unbound".to_string())),
+                op: BinaryFilterOp::Lt,
+                right: lit(Value::Int64(3)),
+            })
+        };
+        let eval = |left: Box<FilterExpression>, op, right: Box<FilterExpression>| {
+            ExpressionPredicate::new(
+                FilterExpression::Binary { left, op, right },
+                HashMap::new(),
+                Arc::clone(&store),
+            )
+            .eval_at(&chunk, 0)
+        };
+        use BinaryFilterOp::{And, Or};
+        // the other operand decides
+        assert_eq!(eval(unknown(), And, lit(Value::Bool(false))), Some(Value::Bool(false)));
+        assert_eq!(eval(lit(Value::Bool(false)), And, unknown()), Some(Value::Bool(false)));
+        assert_eq!(eval(unknown(), Or, lit(Value::Bool(true))), Some(Value::Bool(true)));
+        assert_eq!(eval(lit(Value::Bool(true)), Or, lit(Value::Null)), Some(Value::Bool(true)));
+        // it does not
+        assert_eq!(eval(unknown(), And, lit(Value::Bool(true))), None);
+        assert_eq!(eval(lit(Value::Bool(false)), Or, unknown()), None);
+        assert_eq!(eval(lit(Value::Null), And, lit(Value::Null)), None);
+        // so NOT (unknown AND false) holds
+        let not_p = ExpressionPredicate::new(
+            FilterExpression::Unary {
+                op: UnaryFilterOp::Not,
+                operand: Box::new(FilterExpression::Binary {
+                    left: unknown(),
+                    op: And,
+                    right: lit(Value::Bool(false)),
+                }),
+            },
+            HashMap::new(),
+            Arc::clone(&store),
+        );
+        assert!(not_p.evaluate(&chunk, 0));
     }
 
     #[test]
